@@ -32,7 +32,12 @@ impl ProgramArchive {
     ) -> Result<ProgramArchive, (FileLibrary, Vec<Report>)> {
         let mut merger = Merger::new();
         let mut reports = vec![];
-        for (file_id, definitions) in program_contents {
+        // Merge the files in a fixed order, so that which of two definitions with
+        // the same name is reported as the duplicate does not depend on map order.
+        let mut file_ids: Vec<_> = program_contents.keys().collect();
+        file_ids.sort();
+        for file_id in file_ids {
+            let definitions = &program_contents[file_id];
             if let Err(mut errs) = merger.add_definitions(*file_id, definitions) {
                 reports.append(&mut errs);
             }
